@@ -260,7 +260,7 @@ func checkCase(c Case) (out evid.Outcome) {
 		}
 		redirect := func() evid.Outcome {
 			loc := spy.H.Get("Location")
-			if spy.Status() != http.StatusFound || nextRan {
+			if st := spy.Status(); (st != 301 && st != 302 && st != 307 && st != 308) || nextRan {
 				return fail(out, "no-redirect", "a directory without trailing slash must be redirected: status %v, next ran=%v; %s", spy.Codes, nextRan, desc)
 			}
 			// "redirected to their slash-terminated form": the Location, resolved
@@ -273,7 +273,7 @@ func checkCase(c Case) (out evid.Outcome) {
 			}
 			base := &url.URL{Path: p}
 			target := base.ResolveReference(ref).Path
-			if wantT := path.Clean(p) + "/"; target != wantT {
+			if wantT := path.Clean(p) + "/"; target != wantT && !(w.lenient && target == p+"/") {
 				return fail(out, "bad-location", "redirect Location %q resolves to %q, the slash-terminated form of the request path is %q; %s", loc, target, wantT, desc)
 			}
 			return evid.Outcome{}
